@@ -87,9 +87,9 @@ macro_rules! fb_impl {
             }
             fn apply(&mut self, a: &Act, m: u32) {
                 match a {
-                    Act::Set(p, v) => self.set_pixel(Point::new(p.0, p.1), col::<$c>(*v & m)),
-                    Act::DrawIter(v) => self.draw_iter(v.iter().map(|(p, c)| Pixel(Point::new(p.0, p.1), col::<$c>(*c & m)))).unwrap(),
-                    Act::FillSolid(r, v) => self.fill_solid(&rect(r.0, r.1, r.2, r.3), col::<$c>(*v & m)).unwrap(),
+                    Act::Set(p, v) => self.set_pixel(Point::new(p.0, p.1), col::<$c>(*v)),
+                    Act::DrawIter(v) => self.draw_iter(v.iter().map(|(p, c)| Pixel(Point::new(p.0, p.1), col::<$c>(*c)))).unwrap(),
+                    Act::FillSolid(r, v) => self.fill_solid(&rect(r.0, r.1, r.2, r.3), col::<$c>(*v)).unwrap(),
                     Act::FillContig(r, len) => self.fill_contiguous(&rect(r.0, r.1, r.2, r.3), (0..*len).map(|i| col::<$c>((i.wrapping_mul(0x9E37_79B9) >> 3) & m))).unwrap(),
                     Act::Clear(v) => self.clear(col::<$c>(*v & m)).unwrap(),
                     Act::DrawRect(r, v) => {
@@ -145,6 +145,8 @@ fn mask_of<C: PixelColor>() -> u32 {
     }
 }
 
+/// colour from a raw value; `from_u32` documents that only the low bits of the value are used, so set_pixel,
+/// draw_iter and fill_solid hand it unmasked values
 fn col<C: PixelColor>(raw: u32) -> C {
     C::from(<C::Raw as RawData>::from_u32(raw))
 }
